@@ -23,7 +23,7 @@ def demo_command(path):
     cmd, on = [], False
     for ln in lines:
         s = re.sub(r"^\s*(/\*+|\*+/?|//)\s?", "", ln).strip()
-        if not on and re.match(r"^(\$ )?(gcc|clang|cc)\b", s):
+        if not on and re.match(r"^(\$ )?(\w+=\S+;\s*)?(gcc|clang|cc)\b", s):
             on = True
         if on:
             s = re.sub(r"^\$ ", "", s)
